@@ -639,6 +639,13 @@ Proof.
     { apply t_get_w. intros s (HI & H1 & H2). split; [exact HI|split; [split; assumption|reflexivity]]. }
     2:{ intros e s (_ & _ & H). discriminate. }
     intros w.
+    destruct (to_dur t =? -2).
+    { eapply (t_seq _ _ _ (fun _ s => Inv s /\ K2 (o_w s))).
+      { apply (quiet_m K2); [apply quiet_emit; reflexivity|exact HK2| |].
+        - intros s (HI & H & _). auto.
+        - intros r s H. exact H. }
+      2:{ intros e s [HI _]. split; [exact HI|]. intros; discriminate. }
+      intros _. apply t_ret. intros s (HI & H1 & H2). split; [exact HI|]. intros o oc ctl Hx. inversion Hx; subst. left. auto. }
     eapply (t_seq _ _ _ (fun _ s => Inv s /\ K2 (o_w s))).
     { apply (quiet_m K2); [apply quiet_emit; reflexivity|exact HK2| |].
       - intros s (HI & H & _). auto.
